@@ -53,6 +53,13 @@ class ColumnQuery(Query):
     def is_leaf(self):
         return True
 
+    def estimate_size(self, ixreader):
+        # Any document might have a matching value in the column
+        return ixreader.doc_count()
+
+    def estimate_min_size(self, ixreader):
+        return 0
+
     def matcher(self, searcher, context=None):
         fieldname = self.fieldname
         condition = self.condition
